@@ -226,11 +226,14 @@ func main() {
 		for j := 0; j < 3; j++ { // DBI position of the failure
 			jj := j
 			// transforms and flags
-			run(native, fmt.Sprintf("unknown-transform@dbi%d", j), setupOpt{}, func() ([]byte, context.Context) {
-				s := incoming(3, 1, 0)
-				s.DBIs[jj].Transform = "rot13"
-				return s.ToMsg().Enc(), nil
-			}, true)
+			for _, fv := range []uint32{3, 2, 1} {
+				fv := fv
+				run(native, fmt.Sprintf("unknown-transform-fv%d@dbi%d", fv, j), setupOpt{}, func() ([]byte, context.Context) {
+					s := incoming(fv, 1, 0)
+					s.DBIs[jj].Transform = "rot13"
+					return s.ToMsg().Enc(), nil
+				}, true)
+			}
 			run(native, fmt.Sprintf("dupsort-flag-without-transform@dbi%d", j), setupOpt{}, func() ([]byte, context.Context) {
 				s := incoming(3, 1, 0)
 				s.DBIs[jj].Flags = uint64(lmdb.DupSort)
@@ -242,12 +245,15 @@ func main() {
 				return s.ToMsg().Enc(), nil
 			}, true)
 			if native {
-				run(native, fmt.Sprintf("transform-in-native-mode@dbi%d", j), setupOpt{}, func() ([]byte, context.Context) {
-					s := incoming(3, 1, 0)
-					s.DBIs[jj].Transform = snapshot.TransformDupSortHackV1
-					s.DBIs[jj].Flags = uint64(lmdb.DupSort)
-					return s.ToMsg().Enc(), nil
-				}, true)
+				for _, fv := range []uint32{3, 2, 1} {
+					fv := fv
+					run(native, fmt.Sprintf("transform-in-native-mode-fv%d@dbi%d", fv, j), setupOpt{}, func() ([]byte, context.Context) {
+						s := incoming(fv, 1, 0)
+						s.DBIs[jj].Transform = snapshot.TransformDupSortHackV1
+						s.DBIs[jj].Flags = uint64(lmdb.DupSort)
+						return s.ToMsg().Enc(), nil
+					}, true)
+				}
 			} else {
 				for _, fv := range []uint32{1, 2} {
 					fv := fv
@@ -323,7 +329,7 @@ func main() {
 	sort.Strings(cl)
 	pa.States = int64(len(classes))
 	pa.Distinct = int64(len(classes))
-	pa.Bound = "native and shadow; failure at every DBI position (3) and entry position (3): unknown transform, transform/flag inconsistency both ways, transform in native mode, DBI missing locally with format 1/2 (shadow), wrong wire type / truncated KV / overrunning unknown field, stored value without header under every key; cancellation between any two consecutive observations of the context (1st..20th Done/Err call); map size swept in 4 kB steps from 48 kB to 400 kB with 5 kB incoming values. Outcome classes: " + strings.Join(cl, " ")
+	pa.Bound = "native and shadow; failure at every DBI position (3) and entry position (3): unknown transform and transform in native mode for formats 1..3, transform/flag inconsistency both ways, DBI missing locally with format 1/2 (shadow), wrong wire type / truncated KV / overrunning unknown field, stored value without header under every key; cancellation between any two consecutive observations of the context (1st..20th Done/Err call); map size swept in 4 kB steps from 48 kB to 400 kB with 5 kB incoming values. Outcome classes: " + strings.Join(cl, " ")
 	pa.Samples = []any{"shadow: truncated-kv@dbi2-entry1", "native: map-full@112k"}
 	r.AddPart(pa)
 
